@@ -82,6 +82,9 @@ class Rich:
                 node = {"type": "integer", "enum": vals}
                 self.use("int_enum_inline")
             e = {"kind": "enum_inline", "values": vals}
+            if depth == 0 and r.random() < 0.3:
+                node["default"] = e["default"] = r.choice(vals)
+                self.use("enum_default")
             if "" in vals:
                 self.use("enum_empty_string_value")
             self.use("enum_inline")
